@@ -1286,6 +1286,26 @@ def c16(ctx):
                                       "srcbytes": list(("find all " + chr(q) + body + chr(q)).encode("latin-1")),
                                       "litq": q, "litbody": list(body.encode("latin-1")),
                                       "texts": [bs, [b1], [b2], [b2, b1], [b1, b1, b2, b2], [b1, 32, b2]]})
+    # an escaped backslash followed by what would be a hex escape, and an incomplete \x followed by
+    # backslash-spelled digits: escapes are decoded left to right, once
+    base = max(c["id"] for c in cases)
+    k = 0
+    foll = [("4", [52]), ("1", [49]), ("f", [102]), ("A", [65]), ("\\4", [52]), ("\\1", [49]), ("z", [122]), ("\\\\", [92])]
+    for q in (39, 34):
+        for pre, pb in (("", []), ("a", [97])):
+            for (f1, b1) in foll:
+                for (f2, b2) in foll:
+                    bodies = [(pre + "\\\\x" + f1 + f2, pb + [92, 120] + b1 + b2)]
+                    if not (len(f1) == 1 and f1 in "41fA"):
+                        bodies.append((pre + "\\x" + f1 + f2, pb + [120] + b1 + b2))     # incomplete: x stands for itself
+                    for body, bs in bodies:
+                        k += 1
+                        cases.append({"id": base + k, "cmds": [{"kind": "find", "amt": {"k": "all"},
+                                      "body": [{"k": "lit", "s": bs, "neg": False, "ci": False}]}],
+                                      "srcbytes": list(("find all " + chr(q) + body + chr(q)).encode("latin-1")),
+                                      "litq": q, "litbody": list(body.encode("latin-1")),
+                                      "texts": [bs, bs[1:], pb + [int((f1 + f2), 16)] if len(f1 + f2) == 2 and all(c in "41fA" for c in f1 + f2) else bs + bs,
+                                                [92] + bs]})
     exps, st3 = vlib.eval_cases(ctx.scratch, cases, module="EvalLit", extra_const="CONSTANT LexDev = {}")
     ctx.states += st3["distinct"]
     ctx.transitions += st3["states"]
